@@ -4,13 +4,18 @@
    Case grammar (items separated by ';'):
      p T B id:fam:pfx:a,...   thread T: Update::Bulk   (a = attribute number, or w = withdrawal)
      p T S id:fam:pfx:a       thread T: Update::Single
-     p T W id f|-             thread T: Update::Withdraw(id, Some family | None)
+     p T W id f|-             thread T: Update::Withdraw(id, Some family | None); family 0..3 = IPv4/IPv6
+                              unicast, IPv4/IPv6 multicast; 4.. = a family Rib::withdraw_for_ingress has no arm
+                              for (4 IPv4 MPLS unicast ... 9 IPv4 FlowSpec, 10 IPv6 FlowSpec, 11 VPLS, 12 EVPN,
+                              13.. AfiSafiType::Unsupported): that call panics, observation `panic`
      p T X id,id,...          thread T: Update::WithdrawBulk
      p T E id                 thread T: UpstreamStatusChange(EndOfStream)  (RIB untouched)
-     s T                      schedule: thread T executes its next Update (all its store-level steps)
+     s T                      schedule: thread T executes its next Update (all its store-level steps):
+                              `ok`, `panic` (the call did not return: RibConc.c_panics grew), `-` (nothing left)
      q af pfx                 a reader queries (af 0 = v4, 1 = v6) at this point
-   After the last item every thread runs to completion (thread 0 first), then
-   every (af, prefix) mentioned in the case is queried. *)
+   After the last item every thread runs to completion (thread 0 first; one
+   `panic` per Update that panics), then every (af, prefix) mentioned in the
+   case is queried. *)
 open Conv
 open RibModel
 open RibConc
@@ -66,18 +71,23 @@ let run_case (line : string) : string =
   let emit s = out := s :: !out in
   let exec t =
     match remaining.(t) with
-    | [] -> false
+    | [] -> None
     | u :: us ->
         remaining.(t) <- us;
+        let before = Stdlib.List.length !c.c_panics in
         c := steps true (upd_cost u) !c (nat_of_int t);
-        true in
+        Some (if Stdlib.List.length !c.c_panics > before then "panic" else "ok") in
   (* pass 2: schedule *)
   Stdlib.List.iter (fun it -> match it with
-      | ["s"; t] -> emit (if exec (int_of_string t) then "ok" else "-")
+      | ["s"; t] -> emit (match exec (int_of_string t) with Some o -> o | None -> "-")
       | ["q"; af; p] -> emit (show_query !c.c_rib (int_of_string af) (int_of_string p))
       | "p" :: _ -> ()
       | _ -> failwith ("bad item: " ^ join " " it)) items;
-  Array.iteri (fun t _ -> while exec t do () done) remaining;
+  Array.iteri (fun t _ ->
+      let go = ref true in
+      while !go do
+        match exec t with Some "panic" -> emit "panic" | Some _ -> () | None -> go := false
+      done) remaining;
   if not (all_done !c) then failwith "model: some thread did not finish";
   emit "F";
   let ps = Stdlib.List.sort_uniq compare !pfxs in
